@@ -70,13 +70,95 @@ def h_out_free(tr, fid, e, args, obj):
     return deref(X("call", fn, cargs, ty=Ty("ptr", to=OST)))
 
 
+def summarize(text):
+    """the effect of one literal on the JSON automaton, computed here (Python) by running the automaton of js_char over the literal's
+    characters from every possible entry state (in_str, last); emitted as one guarded update per entry state from which the literal is
+    well formed, and an assertion failure for the others.  Same automaton as js_char (kept in the stubs for reference); depth is
+    symbolic (d0 + offset), so the depth conditions become lower bounds on the entry depth."""
+    LASTS = [0, ord('['), ord('{'), ord(','), ord(':'), ord('v')]
+    out = []
+    for in_str0 in (0, 1):
+        for last0 in LASTS:
+            in_str, last, off, need, objs, ok = in_str0, last0, 0, 0, [], True
+            for ch in text:
+                c = ord(ch)
+                if in_str:
+                    if c == 92:
+                        ok = False
+                        break
+                    if ch == '"':
+                        in_str, last = 0, ord('v')
+                    continue
+                if ch == ' ':
+                    continue
+                if ch == '"':
+                    if last not in (ord('['), ord('{'), ord(','), ord(':')):
+                        ok = False
+                        break
+                    in_str = 1
+                    continue
+                if ch in '{[':
+                    if last not in (0, ord('['), ord(','), ord(':')):
+                        ok = False
+                        break
+                    if ch == '{':
+                        objs.append(off)
+                    off += 1
+                    last = c
+                    continue
+                if ch == '}':
+                    if last not in (ord('v'), ord('{')):
+                        ok = False
+                        break
+                    need = max(need, 2 - off)
+                    off -= 1
+                    last = ord('v')
+                    continue
+                if ch == ']':
+                    if last not in (ord('v'), ord('[')):
+                        ok = False
+                        break
+                    need = max(need, 1 - off)
+                    off -= 1
+                    last = ord('v')
+                    continue
+                if ch == ',':
+                    if last != ord('v'):
+                        ok = False
+                        break
+                    need = max(need, 1 - off)
+                    last = c
+                    continue
+                if ch == ':':
+                    if last != ord('v'):
+                        ok = False
+                        break
+                    need = max(need, 2 - off)
+                    last = c
+                    continue
+                ok = False
+                break
+            if not ok:
+                continue
+            upd = []
+            if need > -1000000 and need > 0:
+                upd.append('__CPROVER_assert(g_depth >= %d, "TRACE closing bracket / separator at a sufficient nesting depth");' % need)
+            for o in objs:
+                upd.append("g_objs += (g_depth + %d == 1);" % o)
+            if off:
+                upd.append("g_depth += %d;" % off)
+            upd.append("g_in_str = %d; g_last = %d;" % (in_str, last))
+            out.append("if (g_in_str == %d && g_last == %d) { %s }" % (in_str0, last0, " ".join(upd)))
+    return " else ".join(out) + (" else " if out else "") + '{ __CPROVER_assert(0, "TRACE literal written in a state from which it is not well-formed JSON"); }'
+
+
 def literal_fn(tr, spelled):
     """one straight-line C function per distinct string literal: the automaton steps for its characters, generated at extraction
     time from the literal's text in the AST (no loop, no string reads for the verifier)"""
     import codecs
     text = codecs.decode(spelled[1:-1], "unicode_escape")
     key = "tracelit:" + text
-    names = tr.stdlib.text.setdefault("tracelit:names", "static void js_char(char c); void verif_ph(int which); void verif_err_too_many(void); extern verif_os verif_cerr;\n")
+    names = tr.stdlib.text.setdefault("tracelit:names", "static void js_char(char c); void verif_ph(int which); void verif_err_too_many(void); extern verif_os verif_cerr; extern long g_depth; extern _Bool g_in_str; extern int g_last; extern unsigned long g_objs;\n")
     idx = getattr(tr, "_tracelits", None)
     if idx is None:
         idx = tr._tracelits = {}
@@ -90,7 +172,7 @@ def literal_fn(tr, spelled):
             body.append("if (os != &verif_cerr) verif_ph('M');")
         if text.startswith('"ph": "C"'):
             body.append("if (os != &verif_cerr) verif_ph('C');")
-        steps = " ".join("js_char(%d);" % ord(ch) for ch in text)
+        steps = summarize(text)
         tr.stdlib.text[key] = "static verif_os *%s(verif_os *os) /* %s */ { %s if (os != &verif_cerr) { %s } return os; }\n" % (name, spelled.replace("*/", "* /"), " ".join(body), steps)
     return idx[text]
 
@@ -226,7 +308,7 @@ def trace_unit():
              pre.replace("o_@0", "o_self"), "  char *in_processName = nondet__Bool() ? the_name : (char *)0;",
              "  tr_saveLog(&o_self, the_file, in_processName);", "  __CPROVER_assert(0, \"VERIF_CANARY reachable end of harness\");\n}"]
         return "\n".join(L) + "\n", []
-    U.fn("tr_saveLog", harness=harness, timeout=1500, solver=["--sat-solver", "cadical"], flags=["--unwind", "16", "--unwinding-assertions"],
+    U.fn("tr_saveLog", harness=harness, timeout=1500, solver=["--sat-solver", "cadical"], flags=(["--unwind", "16", "--unwinding-assertions"] if not os.environ.get("VERIF_TRACE_NOUNWIND") else []),
          requires=["$0->threadTraceMutex.g_held == 0", "$0->threadTrace.n >= 1 && $0->threadTrace.n <= 1000000", "__verif_exc == 0",
                    "g_depth == 0 && !g_in_str && g_last == 0 && g_objs == 0 && g_ph_M == 0 && g_ph_C == 0 && g_evt_read == 0",
                    "g_cap <= %d && ((g_cap == 0 && g_events == 0) || (g_cap > 0 && __CPROVER_r_ok(g_events, g_cap * %s) && __CPROVER_POINTER_OFFSET(g_events) == 0))" % (MAXE, SZ), "g_some_begin.name != 0"],
